@@ -226,7 +226,13 @@ class HSFZConnection:
     async def read_diag_request(self) -> bytes:
         unexpected_packets = []
         while True:
-            hdr, req_hdr, data = await self._unpack_frame(await self.read_frame())
+            try:
+                hdr, req_hdr, data = await self._unpack_frame(await self.read_frame())
+            except BaseException:
+                # The caller gave up waiting (timeout, cancellation) or the connection is gone:
+                # the skipped frames must not be lost for later reads.
+                self._requeue(unexpected_packets)
+                raise
             if hdr.CWord != HSFZStatus.Data:
                 logger.warning(
                     f"expected HSFZ data, instead got: {HSFZStatus(hdr.CWord).name} with payload {data.hex()}"
@@ -248,7 +254,13 @@ class HSFZConnection:
     async def _read_ack(self, prev_data: bytes) -> None:
         unexpected_packets = []
         while True:
-            hdr, req_hdr, data = await self._unpack_frame(await self.read_frame())
+            try:
+                hdr, req_hdr, data = await self._unpack_frame(await self.read_frame())
+            except BaseException:
+                # The caller gave up waiting (timeout, cancellation) or the connection is gone:
+                # the skipped frames must not be lost for later reads.
+                self._requeue(unexpected_packets)
+                raise
             if hdr.CWord != HSFZStatus.Ack:
                 logger.warning(
                     f"expected HSFZ Ack for {prev_data.hex()}, instead got: {HSFZStatus(hdr.CWord).name} with payload {data.hex()}"
